@@ -96,6 +96,21 @@ CHECKS = {
             "2-3 messages with distinct system bytes is fed to the reassembly of a real SecsIProtocol (exactly-once, header, body); every byte "
             "position x every other value of encoded blocks with 0/1/244 data bytes must never decode to a valid block.",
             "Reassembly is driven through Protocol._dispatch_block (the receiver thread's seam); blocks of one message stay in order.", "DESIGN.md 3/C16"),
+    "C03": ("exploration", "enum", "bounded-exhaustive enumeration of structure-conforming values per catalogued function + complete catalogue relation check",
+            "For all catalogued functions the structure is read by an independent SFDL reader; the default value and every value at one "
+            "deviation (two thorough) - open list lengths 0/2/3, each allowed alternative type of each dynamic leaf as typed variable (bytes "
+            "compared with the reference codec) and as plain python value (read back unchanged), count limits - is built, encoded, wrapped in "
+            "a message carrying only S/F and decoded through StreamsFunctions.decode (same class, equal value, same bytes). The YAML "
+            "catalogue vs class attributes, F/F+1 pairing, reply flags, mirrored directions and the lookup of all 128x256 numbers are enumerated completely.",
+            "Values beyond one/two deviations from the default are covered by the small-scope hypothesis; over-long values are observed, not demanded to be rejected.",
+            "DESIGN.md 3/C03"),
+    "C19": ("exploration", "enum", "bounded-exhaustive enumeration of definition trees against an independent reader of the documented rules",
+            "Every definition tree up to depth 3 / width 3 (bounded child pools) over four data item names with optional list names is rendered in "
+            "2-4 whitespace styles and with a comment at every line end; shape (record / open array / item), key order and key names of "
+            "functions.generate(text) are compared with ref/sfdl.py; every closing bracket deleted and every item name replaced by an unknown one "
+            "must be rejected; the shipped definitions are checked the same way.",
+            "Sibling keys kept distinct; an unnamed list around a single named list, empty lists and trailing text are not generated (undocumented).",
+            "DESIGN.md 3/C19"),
 }
 
 NOT_YET = "check not built yet in this revision of /verif (see DESIGN.md section 6 build order)"
